@@ -336,15 +336,20 @@ CONSTANTS
   MaxRolls = 100000
   MaxEp = 100000
   FlagRule = "either"
+  Mode = "auto"
+  ResetClears = FALSE
   Diag = @DIAG@
 INVARIANT TypeOK
 INVARIANT FlagsMarkEpisodeStarts
 INVARIANT NoLeak
 INVARIANT ObsChain
+INVARIANT BootstrapObs
 INVARIANT FirstFlagZero
 CHECK_DEADLOCK FALSE
 """
 ROLLOUT_COVER = ["Reset|ResetTo", "StepContinue|StepWith", "StepTermOnly", "StepTruncOnly", "StepMixed", "Learn"]
+# "loop" mode (one plain environment that the loop resets itself): additionally a reset by the loop inside a rollout
+ROLLOUT_COVER_LOOP = ROLLOUT_COVER + ["LoopReset|LoopResetTo"]
 
 
 def _rollout_sig(t, v):
@@ -361,7 +366,8 @@ def _rollout_sig(t, v):
 def _rollout_what(t, v):
     c = t["cfg"]
     before = [e for e in t["ev"][:max(v.step - 1, 0)]][-4:]
-    return (f"{'train_on_policy (PPO)' if c['loop'] == 'ppo' else 'train_multi_agent_on_policy (IPPO)'}: trace rejected at event "
+    return (f"{'train_on_policy (PPO)' if c['loop'] == 'ppo' else 'train_multi_agent_on_policy (IPPO)'}"
+            f"{'' if c.get('vec', True) else ' on a NON-vectorised ParallelEnv (the loop resets the finished environment inside the rollout)'}: trace rejected at event "
             f"{v.step}: {v.clauses or ('invariant ' + v.invariant)}; envs={c['E']} agents={c['agents'] or 1} learn_steps={c['learn_steps']} "
             f"scripts(length, end kind per episode, cyclic)={c['scripts']}; event={json.dumps(v.event)[:900]}; "
             f"preceding events={json.dumps([{k: x[k] for k in x if k in ('op', 'term', 'trunc', 'ep', 'k')} for x in before])[:900]}")
@@ -377,6 +383,12 @@ def _rollout_cfgs(quick, seed):
         out.append({"loop": "ppo", "E": E, "seed": seed + j, "learn_steps": ls, "rolls": 2 + j % 2, "gens": 2})
         names = (["agent_0", "agent_1"], ["agent_0", "agent_1", "other_0"], ["speaker_0", "listener_0"])[j % 3]
         out.append({"loop": "ippo", "E": (2, 3, 1, 2)[j % 4], "seed": seed + j, "learn_steps": ls, "rolls": 2 + j % 2, "gens": 2, "agents": names})
+    # non-vectorised: IPPO on the raw ParallelEnv; the loop itself resets the finished environment inside the rollout
+    # (train_on_policy on a raw gymnasium environment fails in stack_experiences on the unchanged tree, known finding F-C20-4: left out)
+    for j in range(1 if quick else 4):
+        names = (["agent_0", "agent_1"], ["agent_0", "agent_1", "other_0"], ["speaker_0", "listener_0"])[j % 3]
+        out.append({"loop": "ippo", "vec": False, "E": 1, "seed": seed + 100 + j, "learn_steps": ([5, 3], [4, 2], [6, 4])[j % 3], "rolls": 3, "gens": 2,
+                    "agents": names})
     return out
 
 
@@ -385,15 +397,20 @@ def _rollout_stage(ctx):
     if quick:
         ctx.mc("Rollout_MC", "Rollout_MCq.cfg", must_cover=ROLLOUT_COVER)
         ctx.mc("Rollout_MC", "Rollout_MCma.cfg", must_cover=ROLLOUT_COVER)
+        ctx.mc("Rollout_MC", "Rollout_MCloop.cfg", must_cover=ROLLOUT_COVER_LOOP)
     else:
         ctx.mc("Rollout_MC", "Rollout_MC.cfg", must_cover=ROLLOUT_COVER, timeout=3000)
         ctx.mc("Rollout_MC", "Rollout_MCma.cfg", must_cover=ROLLOUT_COVER)
         ctx.mc("Rollout_MC", "Rollout_MCmat.cfg", must_cover=ROLLOUT_COVER, timeout=3000)
-    negs = [("Rollout_Neg.cfg", "FlagsMarkEpisodeStarts")] + ([] if quick else [("Rollout_NegLeak.cfg", "NoLeak")])
+        ctx.mc("Rollout_MC", "Rollout_MCloop.cfg", must_cover=ROLLOUT_COVER_LOOP)
+        ctx.mc("Rollout_MC", "Rollout_MCloopt.cfg", must_cover=ROLLOUT_COVER_LOOP)
+    # negative controls: flags from terminations only (truncations dropped); flags cleared after the loop's own reset inside a rollout
+    negs = [("Rollout_Neg.cfg", "FlagsMarkEpisodeStarts"), ("Rollout_NegClear.cfg", "FlagsMarkEpisodeStarts")] + \
+           ([] if quick else [("Rollout_NegLeak.cfg", "NoLeak"), ("Rollout_NegClearLeak.cfg", "NoLeak")])
     for cfg, inv in negs:
         neg = tlc.model_check("Rollout_MC", cfg)
         if neg.ok or neg.violated_name != inv:
-            raise Vacuous(f"negative control {cfg}: done flags taken from terminations only (truncations dropped) were not rejected by {inv}")
+            raise Vacuous(f"negative control {cfg}: wrong done flags (terminations only / cleared after the loop's reset) were not rejected by {inv}")
         ctx.extra.setdefault("rollout_negative_controls", []).append({"cfg": cfg, "violated": neg.violated_name, "distinct_states": neg.distinct})
 
     from ..drive import rollout
@@ -401,7 +418,7 @@ def _rollout_stage(ctx):
     agg = {}
     for t in traces:
         st = rollout.stats(t)
-        a = agg.setdefault(t["cfg"]["loop"], {})
+        a = agg.setdefault(t["cfg"]["loop"] + ("" if t["cfg"].get("vec", True) else "-nonvec"), {})
         for k, x in st.items():
             a[k] = a.get(k, 0) + x
         ctx.case(("rollout", json.dumps(t["cfg"], sort_keys=True)), nontrivial=st["term_inner"] + st["trunc_inner"] + st["term_last"] + st["trunc_last"] > 0)
@@ -412,6 +429,8 @@ def _rollout_stage(ctx):
     if all(v.accepted for v in vs):          # vacuity: the accepted runs contain every kind of boundary the clauses talk about
         for loop, a in agg.items():
             need = ["learn", "term_inner", "trunc_inner", "term_last", "trunc_last", "cont_last", "envs_differ", "carry"] + (["agents_differ"] if loop == "ippo" else [])
+            if loop.endswith("-nonvec"):      # one environment; the loop's reset inside a rollout, followed by further steps of the same rollout
+                need = ["learn", "term_inner", "trunc_inner", "cont_last", "loop_reset", "loop_reset_inner"]
             missing = [k for k in need if a.get(k, 0) == 0]
             if missing:
                 raise Vacuous(f"rollout stage: the recorded {loop} runs contain no {missing} (stats {a})")
@@ -431,6 +450,10 @@ def _rollout_stage(ctx):
                "learn(); terminations, truncations and observations are read from the vector environment's own step()/reset() "
                "return values; evaluation episodes (agent.test) between generations are not part of any rollout; the episode an "
                "observation belongs to is read from the observation itself (the scripted environment writes its reset count into it)")
+    ctx.assume("rollout stage, non-vectorised runs: train_multi_agent_on_policy on one plain scripted ParallelEnv (no num_envs); the loop "
+               "resets the finished environment itself inside the rollout; next_state is then the terminal observation (masked by "
+               "next_done = 1), which the clauses allow; train_on_policy on a plain gymnasium environment is not run (it fails in "
+               "stack_experiences on the unchanged tree, known finding F-C20-4)")
     ctx.assume("rollout stage: the flag of the first row of a rollout (always 0 in the loops, also right after an episode end) is "
                "not constrained: the recursion never reads it")
 
